@@ -203,7 +203,8 @@ PROPS["C07"] = dict(
 )
 
 PROPS["C01"] = dict(
-    suites=["c01", "c03b", "c01l"],
+    suites=["c01", "c03b", "c01l", "c01n"],
+    shards={"c01n": 1, "c01l": 2},
     lean_modules=["ServlinVerif.Props.C01", "ServlinVerif.Props.C01Bound"],
     audit="Audit/C01.lean",
     rule="read_http_request on scripted streams (FixedBuf<16|64|8192>): exhaustive strings over {G / SP : CR LF 0x80 a} up to length 6 (7 "
@@ -213,7 +214,7 @@ PROPS["C01"] = dict(
          "for BUF in {64, 8192}; all 2-way splits and EOF/error at every offset of 4 short heads. Non-trivial = a blank line is present "
          "(parser reached) or the stream is non-empty.",
     nontrivial=lambda tag, args, obs: not obs.startswith("err:Truncated") and not obs.startswith("err:Disconnected"),
-    klass=lambda tag, args, obs: "c03b:ops=%d" % min(args[1].count(";") + 1, 24) if tag == "c05" else ("c01l:stopped-logger" if tag == "c04" else "c01:" + obs.split(" ")[0][:40]),
+    klass=lambda tag, args, obs: "c03b:ops=%d" % min(args[1].count(";") + 1, 24) if tag == "c05" else ("c01l:stopped-logger" if tag == "c04" else ("c01n:no-timer-thread" if tag == "c01n" else "c01:" + obs.split(" ")[0][:40])),
     explanation="Head::try_read / read_http_head / read_http_request modelled (regexes as explicit matchers, url crate as parameter supplied "
                 "per case by the harness). Theorems: C01_total (never panics, only documented errors), readHeadOp_eq_D / "
                 "C01_sched_irrelevant (every read schedule gives the denotational result), C01_consumes_exactly, C01_eof_anywhere.",
